@@ -567,7 +567,7 @@ func CellString(s string) *string {
 	return &s
 }
 func rowLess(ri, rj Row, c SortConfig) bool {
-	if c == nil {
+	if len(c) == 0 {
 		return false
 	}
 	cfg, last := c[0], len(c) == 1
@@ -945,6 +945,19 @@ func (t *Table) Reduce(cfg SortConfig, aaps []AliasAccPair) error {
 		}
 		return res.String()
 	}
+	// The sort above treats cells of different kinds as equal, so it does not
+	// guarantee that the rows of one group are contiguous when a grouping
+	// column mixes nodes, predicates and literals. Gather the rows of each
+	// group next to its first row, keeping the sorted order of the groups.
+	first := make(map[string]int)
+	for idx, r := range t.Data {
+		if _, ok := first[id(r)]; !ok {
+			first[id(r)] = idx
+		}
+	}
+	sort.SliceStable(t.Data, func(i, j int) bool {
+		return first[id(t.Data[i])] < first[id(t.Data[j])]
+	})
 	for idx, r := range t.Data {
 		current = id(r)
 		// First time.
